@@ -982,11 +982,17 @@ where
             // So we handle TurnUndead here, otherwise the nodes will be
             // spamming each other with this message until enough time passes
             // that foca forgets the down member (`Config::remove_down_after`)
+            let already_undead = self.connection_state == ConnectionState::Undead;
             if message == Message::TurnUndead {
                 self.handle_self_update(Incarnation::default(), State::Down, &mut runtime)?;
             }
 
-            if self.config.notify_down_members {
+            // Answering a TurnUndead with another one when we already knew
+            // we were down teaches nobody anything: two members that consider
+            // each other down (and can't renew their identities) would keep
+            // bouncing the message back and forth forever
+            let is_pointless_reply = already_undead && message == Message::TurnUndead;
+            if self.config.notify_down_members && !is_pointless_reply {
                 self.send_message(src, Message::TurnUndead, runtime)?;
             }
 
